@@ -224,6 +224,7 @@ class Kernel(Contract):
     def final(self, a, cx, name="flatconfig"):
         """the array parameter after the call: published value when used as callee, else the current local"""
         out = a.__dict__.get("_out") or {}
+        a.__dict__["_cx"] = cx
         return out[name] if name in out else cx.env[name]
 
     def publish(self, cx, a, name="flatconfig"):
@@ -279,15 +280,19 @@ class RankNosymm(Kernel):
 class Unrank2(Kernel):
     """common part of the unranking kernels, which only *write* the configuration: statements about the array
     are proved at one arbitrary (skolem) index G -- quantifier free, so failed obligations come with models --
-    and assumed for all indices when the contract is used at a call site (forall-introduction over G)."""
+    hence hold for all indices (forall-introduction over G); call sites assume the instances they need."""
 
     def as_callee(self, a):
         return "_out" in a.__dict__
 
     def at_all(self, a, body):
-        """body(j): for all j when assumed at a call site, at the skolem index when proved"""
+        """body(j): at the skolem index when proved; when assumed at a call site: the instances of `forall j`
+        at the indices the calling contract asks for (default: its own skolem index G) -- assuming instances
+        only is sound and keeps the caller's obligations quantifier free"""
         if self.as_callee(a):
-            return forall(body, lambda j: sel(self._c1, j))
+            cx = a.__dict__["_cx"]
+            inst = getattr(cx.contract, "instances", None)
+            return And(*[body(j) for j in (inst(cx) if inst else [G])])
         return body(G)
 
     def unrank_post(self, a, c1, r0, nbits):
@@ -977,3 +982,145 @@ def lem_u1ur_s():
             [0 <= _i, _i < _n, _r0 == _R(_n), is_bit(sel(_c, _i)), _tail(_i + 1),
              _UR(_i) == _r0 - _R(_i), _UK(_i) == _KR(_i)]), \
         And(_unranked(_i), _UR(_i + 1) == _r0 - _R(_i + 1), _UK(_i + 1) == _KR(_i + 1))
+
+
+# ---------------------------------------------------------------------------------------------------------
+# mixed radix (no symmetry, site dimensions sizes[i] >= 1):   [0, prod sizes)  <->  prod_i [0, sizes[i])
+# ---------------------------------------------------------------------------------------------------------
+
+
+def positive(a, n):
+    return forall(lambda j: Implies(And(0 <= j, j < n), sel(a, j) >= 1), lambda j: sel(a, j))
+
+
+@register
+class CalculateStrides(Kernel):
+    """strides[i] = ST(sizes,n,i) = prod_{j>i} sizes[j]   (strides[n-1] = 1)"""
+
+    target = f"{CC}::calculate_strides"
+    floor = 8
+
+    def inputs(self, cx, case):
+        n = cx.Int("n")
+        return dict(sizes=self.intvec(cx, "sizes", n))
+
+    def requires(self, a, case):
+        return {"n>=0": a.sizes.shape[0] >= 0}
+
+    def ensures(self, a, res, cx, case):
+        if not (isinstance(res, Arr) and res.ndim == 1):
+            return {"returns-vector": False}
+        n = a.sizes.shape[0]
+        return {"length": res.shape[0] == n,
+                "strides": forall(lambda j: Implies(And(0 <= j, j < n), sel(res, j) == ST(a.sizes.a, n, j)),
+                                  lambda j: sel(res, j))}
+
+    def fresh_result(self, cx, a, case):
+        return self.intvec(cx, "strides", a.sizes.shape[0])
+
+    def _inv(v):
+        o = v.old
+        n = o.sizes.shape[0]
+        st = v.strides
+        return {"n": v.n == n, "i-range": And(v.i <= n - 2, Or(-1 <= v.i, n == 0)),
+                "done": forall(lambda j: Implies(And(v.i < j, 0 <= j, j < n), sel(st, j) == ST(o.sizes.a, n, j)),
+                               lambda j: sel(st, j)),
+                "todo": forall(lambda j: Implies(And(0 <= j, j <= v.i), sel(st, j) == 1), lambda j: sel(st, j))}
+
+    loops = {0: Loop("for i in range(n - 2, -1, -1)", inv=_inv,
+                     facts=lambda v: def_ST(v.old.sizes.a, v.old.sizes.shape[0], v.i))}
+
+
+@register
+class RankMixedRadix(Kernel):
+    """r = S(c,strides,n) = sum_i c[i]*strides[i]"""
+
+    target = f"{CC}::flatconfig_to_rank_mixed_radix_nosymm"
+    floor = 5
+
+    def inputs(self, cx, case):
+        n = cx.Int("n")
+        return dict(flatconfig=self.intvec(cx, "c", n), strides=self.intvec(cx, "strides", n))
+
+    def requires(self, a, case):
+        n = a.flatconfig.shape[0]
+        return {"n>=0": n >= 0, "shape": a.strides.shape[0] == n}
+
+    def ensures(self, a, r, cx, case):
+        return {"rank==S": r == Sm(a.flatconfig.a, a.strides.a, a.flatconfig.shape[0])}
+
+    def fresh_result(self, cx, a, case):
+        return cx.Int("rank")
+
+    loops = {0: Loop("for i in range(flatconfig.size)",
+                     inv=lambda v: {"sum": v.r == Sm(v.old.flatconfig.a, v.old.strides.a, v.i),
+                                    "i-range": And(0 <= v.i, v.i <= v.old.flatconfig.shape[0])},
+                     facts=lambda v: def_S(v.old.flatconfig.a, v.old.strides.a, v.i))}
+
+
+@register
+class UnrankMixedRadix(Unrank2):
+    """c'[j] = (r div strides[j]) mod sizes[j]  -- a digit in [0, sizes[j]) -- for 0 <= j < n, frame"""
+
+    target = f"{CC}::rank_into_flatconfig_mixed_radix_nosymm"
+    floor = 8
+
+    def inputs(self, cx, case):
+        n = cx.Int("n")
+        return dict(flatconfig=self.intvec(cx, "c", n), r=cx.Int("r"), sizes=self.intvec(cx, "sizes", n),
+                    strides=self.intvec(cx, "strides", n))
+
+    def requires(self, a, case):
+        n = a.sizes.shape[0]
+        return {"n>=0": n >= 0, "shape": And(a.flatconfig.shape[0] == n, a.strides.shape[0] == n), "r>=0": a.r >= 0,
+                "sizes>=1": positive(a.sizes, n), "strides>=1": positive(a.strides, n)}
+
+    def digits(self, a, c1):
+        n = a.sizes.shape[0]
+        self._c1 = c1
+        return self.at_all(a, lambda j: Implies(
+            And(0 <= j, j < n),
+            And(sel(c1, j) == (a.r / sel(a.strides, j)) % sel(a.sizes, j), 0 <= sel(c1, j), sel(c1, j) < sel(a.sizes, j))))
+
+    def ensures(self, a, res, cx, case):
+        c1 = self.final(a, cx)
+        return {"digits": self.digits(a, c1), "frame": self.frame_post(a, c1, a.flatconfig, 0, a.sizes.shape[0]),
+                "returns-None": res is None}
+
+    def fresh_result(self, cx, a, case):
+        self.publish(cx, a)
+        return None
+
+    def _inv(v):
+        o = v.old
+        c, c0 = v.flatconfig, o.flatconfig
+        n = o.sizes.shape[0]
+        dg = (o.r / sel(o.strides, G)) % sel(o.sizes, G)
+        return {"i-range": And(0 <= v.i, v.i <= n),
+                "prefix": Implies(And(0 <= G, G < v.i), And(sel(c, G) == dg, 0 <= sel(c, G), sel(c, G) < sel(o.sizes, G))),
+                "frame": Implies(Or(G < 0, G >= v.i), sel(c, G) == sel(c0, G))}
+
+    loops = {0: Loop("for i in range(len(sizes))", inv=_inv)}
+
+
+@register
+class RankToMixedRadix(Unrank2):
+    target = f"{CC}::rank_to_flatconfig_mixed_radix_nosymm"
+    floor = 4
+
+    def inputs(self, cx, case):
+        n = cx.Int("n")
+        return dict(r=cx.Int("r"), sizes=self.intvec(cx, "sizes", n), strides=self.intvec(cx, "strides", n))
+
+    def requires(self, a, case):
+        n = a.sizes.shape[0]
+        return {"n>=0": n >= 0, "shape": a.strides.shape[0] == n, "r>=0": a.r >= 0,
+                "sizes>=1": positive(a.sizes, n), "strides>=1": positive(a.strides, n)}
+
+    def ensures(self, a, res, cx, case):
+        if not (isinstance(res, Arr) and res.ndim == 1):
+            return {"returns-vector": False}
+        return {"length": res.shape[0] == a.sizes.shape[0], "digits": UnrankMixedRadix.digits(self, a, res)}
+
+    def fresh_result(self, cx, a, case):
+        return self.intvec(cx, "cfg", a.sizes.shape[0])
